@@ -261,6 +261,12 @@ def _run(ctx, name, n, do_model, sweep=True):
             except srvkit.Stuck as x:
                 ctx.fail("stuck:" + st, "the %s server got stuck: %r" % (st, x), case)
                 continue
+            except (OSError, RuntimeError, ValueError, KeyError, AttributeError, TypeError) as x:
+                # nothing may escape the transport server's event handling: its loop would end, the connection that just ended would
+                # never be cleaned up and no other connection would be served again
+                ctx.fail("server-loop-raises:" + st, "the %s server's event handling raises %r: the ended connection is not cleaned up "
+                         "and the request loop ends" % (st, x), case)
+                continue
             except srvkit.Blocked as x:
                 ctx.fail("no-server-timeout:" + st, "COMMTIMEOUT is %.1f but a silent peer is never timed out, so its connection is never "
                          "cleaned up and (multiplex) nothing else is served: %s" % (ct, x), case)
@@ -388,6 +394,11 @@ def replay(ctx, case):
     except srvkit.Blocked as x:
         print("history:", c08.hist_line(c["nconn"], evs))
         print("   a silent peer is never timed out:", x)
+        print("VIOLATION reproduced")
+        return 1
+    except (OSError, RuntimeError, ValueError, KeyError, AttributeError, TypeError) as x:
+        print("history:", c08.hist_line(c["nconn"], evs))
+        print("   the server's event handling raises %r" % (x,))
         print("VIOLATION reproduced")
         return 1
     print("history:", c08.hist_line(c["nconn"], evs))
